@@ -254,6 +254,144 @@ fn basic(sc: &mut Sc, cell: &mut Cell, rep: &mut Report) -> Option<(Vec<Ka>, Vec
     Some((xs, ys, pairs))
 }
 
+/// One client connection uses both a cluster that inherits the global default (b) and a cluster
+/// with its own limit (a); the global default is switched off while it is open; it closes; the
+/// global default comes back. Every slot the connection held must have been released: the per-IP
+/// maps are empty at quiescence and fresh connections of the same address are admitted up to the
+/// limit of cluster a.
+fn mixed_clusters_global_disable(sc: &mut Sc, cell: &mut Cell, rep: &mut Report) {
+    let l = sc.limit;
+    let global = (l + 2) as u64;
+    rep.obs("per_ip_mixed_cluster_disable_checks", 1);
+    // the mixed connection: HTTP/1.1 keep-alive with two Host values, or HTTP/2 streams
+    let use_h2 = sc.tls && sc.cc.case % 2 == 0;
+    let mut h1 = None;
+    let mut h2c = None;
+    let mut served = (false, false);
+    if use_h2 {
+        if let Ok(mut hc) = super::h2::open_conn(&cell.env, Some(sc.x)) {
+            for (k, host) in ["a.test", "b.test"].iter().enumerate() {
+                if let Some(sid) = super::h2::get(&mut hc, host, "/ok?len=4") {
+                    let w = super::h2::await_streams(&mut hc, &[sid], Instant::now() + Duration::from_secs(4));
+                    if k == 0 { served.0 = w.ok200 == 1 } else { served.1 = w.ok200 == 1 }
+                }
+            }
+            h2c = Some(hc);
+        }
+    } else if let Some(mut k) = Ka::open(cell, sc.tls, sc.x) {
+        served.0 = ok200(&k.get("a.test"));
+        served.1 = ok200(&k.get("b.test"));
+        h1 = Some(k);
+    }
+    sc.step(if use_h2 { "X: one HTTP/2 connection, streams to a.test and b.test" } else { "X: one keep-alive connection, GET a.test then GET b.test" }, json!({"a": served.0, "b": served.1}));
+    if !(served.0 && served.1) {
+        rep.inconclusive("per_ip_unexpected_answer_below_limit");
+        return;
+    }
+    // a second address, cluster a only (control)
+    let mut ky = Ka::open(cell, sc.tls, sc.y);
+    let y_ok = ky.as_mut().is_some_and(|k| ok200(&k.get("a.test")));
+    sc.step("Y conn GET a.test", json!(y_ok));
+    if !sc.hook(cell, rep, Some(l.max(global as usize)), 2 + y_ok as usize, "mixed connection open") {
+        return;
+    }
+    let ok = set_limit(cell, 0);
+    sc.step("SetMaxConnectionsPerIp(0)  (global default only; cluster a keeps its own limit, cluster b inherits)", json!(ok));
+    rep.obs("per_ip_runtime_changes", 1);
+    if let Some(s) = cell.fresh_snapshot() {
+        sc.step("hook after disable", json!({"entries": s.per_cluster_ip_entries, "total": s.per_cluster_ip_total, "tracked_sessions": s.cluster_ip_tracks}));
+    }
+    // the open connection keeps using cluster a: still its one slot, never refused against it
+    if sc.cc.case % 3 != 0 {
+        let again = if let Some(k) = h1.as_mut() {
+            let r = k.get("a.test");
+            Some((ok200(&r), r.status == Some(429)))
+        } else if let Some(hc) = h2c.as_mut() {
+            super::h2::get(hc, "a.test", "/ok?len=4").map(|sid| {
+                let w = super::h2::await_streams(hc, &[sid], Instant::now() + Duration::from_secs(4));
+                (w.ok200 == 1, false)
+            })
+        } else {
+            None
+        };
+        sc.step("X: the open connection requests a.test again", json!(again));
+        if let Some((_, true)) = again {
+            rep.violation(
+                "per_ip/connection_refused_against_its_own_slot",
+                "after the global per-IP default was disabled, a connection that already holds the slot of a cluster with its own limit got 429 on that cluster",
+                sc.wit(cell),
+            );
+            return;
+        }
+        if let Some(s) = cell.fresh_snapshot() {
+            let expect = 1 + y_ok as usize;
+            sc.step("hook after the repeated request", json!({"total": s.per_cluster_ip_total, "max": s.per_cluster_ip_max}));
+            if s.per_cluster_ip_max > 1 && l >= 1 && s.per_cluster_ip_total > expect {
+                rep.violation(
+                    "per_ip/connection_holds_more_than_one_slot",
+                    &format!("one client connection is counted {} times for (cluster a, its address) after the global default was disabled", s.per_cluster_ip_total - y_ok as usize),
+                    sc.wit(cell),
+                );
+                return;
+            }
+        }
+    }
+    // the connections close
+    drop(h1);
+    drop(h2c);
+    drop(ky);
+    let t0 = Instant::now();
+    let mut gone = false;
+    while t0.elapsed() < Duration::from_secs(4) {
+        if cell.fresh_snapshot().is_some_and(|s| s.nb_connections == 0) {
+            gone = true;
+            break;
+        }
+        std::thread::sleep(Duration::from_millis(10));
+    }
+    sc.step("all connections closed", json!({"sessions_gone": gone}));
+    if !gone {
+        rep.inconclusive("per_ip_sessions_not_gone_after_close");
+        return;
+    }
+    if let Some(s) = cell.fresh_snapshot() {
+        sc.step("hook at quiescence", json!({"entries": s.per_cluster_ip_entries, "total": s.per_cluster_ip_total, "tracked_sessions": s.cluster_ip_tracks}));
+    }
+    let ok = set_limit(cell, global);
+    sc.step("SetMaxConnectionsPerIp(global) again", json!(ok));
+    // fresh connections of X: admitted up to the limit of cluster a
+    let mut fresh = Vec::new();
+    for i in 0..l {
+        let Some(mut k) = Ka::open(cell, sc.tls, sc.x) else { break };
+        let r = k.get("a.test");
+        sc.step(&format!("X fresh conn {i} GET a.test"), json!(r.tag()));
+        if r.status == Some(429) {
+            rep.violation(
+                "per_ip/slot_not_released_after_runtime_disable",
+                &format!("with no connection left, fresh connection {} of the address is refused (429) by the cluster whose limit is {l}: the slot of a closed connection that had used two clusters was never released", i + 1),
+                sc.wit(cell),
+            );
+            return;
+        }
+        if !ok200(&r) {
+            rep.inconclusive("per_ip_unexpected_answer_below_limit");
+            return;
+        }
+        fresh.push(k);
+    }
+    rep.obs("per_ip_fresh_connections_admitted_after_reenable", fresh.len() as u64);
+    if let Some(mut k) = Ka::open(cell, sc.tls, sc.x) {
+        let r = k.get("a.test");
+        sc.step("X fresh conn L+1 GET a.test", json!(r.tag()));
+        rep.obs("per_ip_over_limit_attempts", 1);
+        if r.status == Some(429) {
+            rep.obs("per_ip_rejections_429", 1);
+        } else if ok200(&r) {
+            rep.violation("per_ip/limit_exceeded/http", &format!("connection {} of one source IP was served for a cluster whose per-IP limit is {l}", l + 1), sc.wit(cell));
+        }
+    }
+}
+
 fn http_scenario(cc: &mut CaseCtx, cell: &mut Cell, variant: &'static str, limit: usize, tls: bool, rep: &mut Report) -> Value {
     let mut sc = Sc { cc, variant, limit, tls, x: IpAddr::V4(lab::fresh_ip()), y: IpAddr::V4(lab::fresh_ip()), steps: Vec::new() };
     let l = limit;
@@ -353,6 +491,7 @@ fn http_scenario(cc: &mut CaseCtx, cell: &mut Cell, variant: &'static str, limit
                 rep.obs(if ok200(&r) { "per_ip_old_connection_served_after_reenable" } else { "per_ip_old_connection_refused_after_reenable" }, 1);
             }
         }
+        "http_mixed_clusters_global_disable" => mixed_clusters_global_disable(&mut sc, cell, rep),
         _ => {
             // cluster a carries its own limit L; the *global* default is switched off at runtime.
             let mut xs = Vec::new();
@@ -494,13 +633,19 @@ fn tcp_scenario(cc: &mut CaseCtx, cell: &mut Cell, limit: usize, rep: &mut Repor
 pub fn cell(cc: &mut CaseCtx, rep: &mut Report) {
     let mut rng = Rng::for_case(cc.ctx.seed, S_CELL, cc.case);
     let limit = rng.urange(1, 4);
+    const VARIANTS: [&str; 6] = [
+        "http_global",
+        "http_mixed_clusters_global_disable",
+        "http_cluster_override",
+        "http_runtime",
+        "http_cluster_override_global_disable",
+        "tcp",
+    ];
+    // per-IP cells are the cases 13, 14, 15 (mod 16): take the variants in turn
+    let turn = ((cc.case / 16) * 3 + (cc.case % 16).saturating_sub(13)) as usize;
     let variant = match cc.ctx.opt("variant") {
-        Some("http_global") => "http_global",
-        Some("http_cluster_override") => "http_cluster_override",
-        Some("http_runtime") => "http_runtime",
-        Some("http_cluster_override_global_disable") => "http_cluster_override_global_disable",
-        Some("tcp") => "tcp",
-        _ => *rng.pick(&["http_global", "http_cluster_override", "http_runtime", "http_cluster_override_global_disable", "tcp"]),
+        Some(v) => VARIANTS.iter().copied().find(|x| *x == v).unwrap_or(VARIANTS[turn % VARIANTS.len()]),
+        None => VARIANTS[turn % VARIANTS.len()],
     };
     let tls = variant != "tcp" && rng.chance(1, 3);
     let tcp_global = rng.bool();
@@ -508,6 +653,7 @@ pub fn cell(cc: &mut CaseCtx, rep: &mut Report) {
         "http_global" | "http_runtime" => (limit as u64, None, None),
         "http_cluster_override" => (0, Some(limit as u64), None),
         "http_cluster_override_global_disable" => (if rng.bool() { 0 } else { limit as u64 + 3 }, Some(limit as u64), None),
+        "http_mixed_clusters_global_disable" => (limit as u64 + 2, Some(limit as u64), None),
         _ => {
             if tcp_global {
                 (limit as u64, None, None)
@@ -548,7 +694,7 @@ pub fn cell(cc: &mut CaseCtx, rep: &mut Report) {
                 let detail = if variant == "tcp" { tcp_scenario(cc, &mut cell, limit, rep) } else { http_scenario(cc, &mut cell, variant, limit, tls, rep) };
                 rep.case_bytes(format!("{variant}|{limit}|{tls}|{}", rep.violations.len() > before).as_bytes(), true);
                 // everything the scenario opened is closed by now
-                let class = if variant == "tcp" { "per_ip_tcp" } else if variant == "http_runtime" || variant == "http_cluster_override_global_disable" { "per_ip_runtime" } else { "per_ip_http" };
+                let class = if variant == "tcp" { "per_ip_tcp" } else if variant == "http_runtime" || variant == "http_cluster_override_global_disable" || variant == "http_mixed_clusters_global_disable" { "per_ip_runtime" } else { "per_ip_http" };
                 check_conservation(cc, &mut cell, &base, class, detail, rep);
             }
             None => {
